@@ -252,6 +252,11 @@ class Check:
             r.error, r.violation, r.ok = "out of memory", None, False
         if "StackOverflowError" in out:
             r.error, r.violation, r.ok = "stack overflow", None, False
+        if rc in (137, -9, 134, 139, 143, -15) or (
+                mode in ("mc", "trace") and not r.ok and r.violation is None and r.error is None):
+            # killed (kernel OOM killer, signal) or ended without TLC's closing verdict:
+            # never "0 states / ok"
+            r.error, r.ok = "TLC ended without a verdict (exit status %s)" % rc, False
         if coverage:
             r.coverage_zero = sorted(set(re.findall(r"<(\w+) line \d+, col \d+ to line \d+, col \d+ of module \w+>: 0:0", out)))
         return r
